@@ -19,6 +19,11 @@ pub enum Step {
     Build(Call),
     /// simplify request for the n-th pool member (index into the sequence of Build steps)
     Req(usize),
+    /// one very large expression: n leaves `implies(x, not(equal(v, i)))` (each needs two rewrite
+    /// rounds) chained by 1-bit comparisons; pushes two pool members, the chain up to its middle
+    /// and the whole chain. Reaches what small pools cannot: tens of thousands of rewrite rounds
+    /// and cache entries within one call
+    BuildChain(u32),
 }
 
 #[derive(Clone, Debug)]
@@ -31,6 +36,7 @@ impl SimpScenario {
         json!({"workload": {"kind": "ops", "steps": self.steps.iter().map(|s| match s {
             Step::Build(c) => json!(["build", call_to_json(c)]),
             Step::Req(i) => json!(["simplify", i]),
+            Step::BuildChain(n) => json!(["build_chain", n]),
         }).collect::<Vec<_>>()}})
     }
     fn from_json(v: &Value) -> Result<Self, String> {
@@ -39,6 +45,7 @@ impl SimpScenario {
             steps.push(match s[0].as_str().ok_or("step")? {
                 "build" => Step::Build(call_from_json(&s[1])?),
                 "simplify" => Step::Req(s[1].as_u64().ok_or("idx")? as usize),
+                "build_chain" => Step::BuildChain(s[1].as_u64().ok_or("n")? as u32),
                 o => return Err(format!("unknown step {o}")),
             });
         }
@@ -57,6 +64,11 @@ fn mk(class: &str, site: &str, detail: String) -> Violation {
 }
 
 fn judge(scn: &SimpScenario, acc: &mut Acc) -> Option<Violation> {
+    // very large expressions are named by reference: printing them is recursive in patronus
+    let giant = scn.steps.iter().any(|s| matches!(s, Step::BuildChain(_)));
+    let show = |ctx: &Context, e: &ExprRef| -> String {
+        if giant { format!("<expression {e:?} of the chain>") } else { e.serialize_to_str(ctx) }
+    };
     let mut result: Option<Violation> = None;
     let current: std::cell::RefCell<String> = std::cell::RefCell::new(String::new());
     let mut n_req = 0u64;
@@ -82,6 +94,31 @@ fn judge(scn: &SimpScenario, acc: &mut Acc) -> Option<Violation> {
                     }
                     pool.push(r);
                 }
+                Step::BuildChain(n) => {
+                    let x = ctx.bv_symbol("chain_x", 1);
+                    let v = ctx.bv_symbol("chain_v", 32);
+                    let mut acc: Option<ExprRef> = None;
+                    let mut mid = None;
+                    for i in 0..*n {
+                        let lit = ctx.bit_vec_val(i as u128, 32u32);
+                        let eq = ctx.equal(v, lit);
+                        let ne = ctx.not(eq);
+                        let leaf = ctx.implies(x, ne);
+                        acc = Some(match acc {
+                            None => leaf,
+                            Some(a) => ctx.greater(a, leaf),
+                        });
+                        if i == *n / 2 {
+                            mid = acc;
+                        }
+                    }
+                    if first_req_seen {
+                        built_after_first_req.push(pool.len());
+                        built_after_first_req.push(pool.len() + 1);
+                    }
+                    pool.push(mid);
+                    pool.push(acc);
+                }
                 Step::Req(i) => {
                     let Some(Some(e)) = pool.get(*i).cloned() else {
                         continue;
@@ -91,7 +128,7 @@ fn judge(scn: &SimpScenario, acc: &mut Acc) -> Option<Violation> {
                         late_refs += 1;
                     }
                     n_req += 1;
-                    *current.borrow_mut() = e.serialize_to_str(&ctx);
+                    *current.borrow_mut() = show(&ctx, &e);
                     patronus::verif_fuel::set_fuel(Some(FUEL));
                     let a = sparse.simplify(&mut ctx, e);
                     let t = patronus::verif_fuel::used();
@@ -112,9 +149,9 @@ fn judge(scn: &SimpScenario, acc: &mut Acc) -> Option<Violation> {
                             "shared-vs-fresh",
                             format!(
                                 "simplify({}) gives {} on the long-lived simplifier but {} on a fresh one",
-                                e.serialize_to_str(&ctx),
-                                a.serialize_to_str(&ctx),
-                                c.serialize_to_str(&ctx)
+                                show(&ctx, &e),
+                                show(&ctx, &a),
+                                show(&ctx, &c)
                             ),
                         ));
                         return Ok(());
@@ -125,15 +162,15 @@ fn judge(scn: &SimpScenario, acc: &mut Acc) -> Option<Violation> {
                             "sparse-vs-dense",
                             format!(
                                 "simplify({}) gives {} with the sparse cache but {} with the dense cache",
-                                e.serialize_to_str(&ctx),
-                                a.serialize_to_str(&ctx),
-                                b.serialize_to_str(&ctx)
+                                show(&ctx, &e),
+                                show(&ctx, &a),
+                                show(&ctx, &b)
                             ),
                         ));
                         return Ok(());
                     }
                     // idempotence, on the shared and on a fresh instance
-                    *current.borrow_mut() = a.serialize_to_str(&ctx);
+                    *current.borrow_mut() = show(&ctx, &a);
                     patronus::verif_fuel::set_fuel(Some(FUEL));
                     let a2 = sparse.simplify(&mut ctx, a);
                     patronus::verif_fuel::set_fuel(Some(FUEL));
@@ -147,9 +184,9 @@ fn judge(scn: &SimpScenario, acc: &mut Acc) -> Option<Violation> {
                             if a3 != a { "fresh" } else { "shared" },
                             format!(
                                 "simplify({}) = {} but simplifying that again gives {}",
-                                e.serialize_to_str(&ctx),
-                                a.serialize_to_str(&ctx),
-                                which.serialize_to_str(&ctx)
+                                show(&ctx, &e),
+                                show(&ctx, &a),
+                                show(&ctx, &which)
                             ),
                         ));
                         return Ok(());
@@ -160,7 +197,7 @@ fn judge(scn: &SimpScenario, acc: &mut Acc) -> Option<Violation> {
         }
         // every earlier answer is re-requested at the end and must be unchanged
         for (e, a) in &answers {
-            *current.borrow_mut() = e.serialize_to_str(&ctx);
+            *current.borrow_mut() = show(&ctx, &e);
             patronus::verif_fuel::set_fuel(Some(FUEL));
             let again = sparse.simplify(&mut ctx, *e);
             patronus::verif_fuel::set_fuel(Some(FUEL));
@@ -171,9 +208,9 @@ fn judge(scn: &SimpScenario, acc: &mut Acc) -> Option<Violation> {
                     "re-request",
                     format!(
                         "simplify({}) first gave {} and later {}",
-                        e.serialize_to_str(&ctx),
-                        a.serialize_to_str(&ctx),
-                        (if again != *a { again } else { again_d }).serialize_to_str(&ctx)
+                        show(&ctx, &e),
+                        show(&ctx, &a),
+                        show(&ctx, &(if again != *a { again } else { again_d }))
                     ),
                 ));
                 return Ok(());
@@ -203,9 +240,9 @@ fn judge(scn: &SimpScenario, acc: &mut Acc) -> Option<Violation> {
                         "system-pass-vs-single",
                         format!(
                             "simplify({}) gives {} on its own but {} when simplified as root #{i} of a batch of {} roots by simplify_expressions",
-                            e.serialize_to_str(&ctx),
-                            a.serialize_to_str(&ctx),
-                            got.serialize_to_str(&ctx),
+                            show(&ctx, &e),
+                            show(&ctx, &a),
+                            show(&ctx, &got),
                             roots.len()
                         ),
                     ));
@@ -213,7 +250,7 @@ fn judge(scn: &SimpScenario, acc: &mut Acc) -> Option<Violation> {
                 }
             }
             for (e, a) in roots.iter().take(4) {
-                *current.borrow_mut() = e.serialize_to_str(&ctx);
+                *current.borrow_mut() = show(&ctx, &e);
                 patronus::verif_fuel::set_fuel(Some(FUEL));
                 let got = patronus::expr::simplify_single_expression(&mut ctx, *e);
                 if got != *a {
@@ -222,9 +259,9 @@ fn judge(scn: &SimpScenario, acc: &mut Acc) -> Option<Violation> {
                         "simplify_single_expression",
                         format!(
                             "simplify_single_expression({}) gives {} but a simplifier instance gives {}",
-                            e.serialize_to_str(&ctx),
-                            got.serialize_to_str(&ctx),
-                            a.serialize_to_str(&ctx)
+                            show(&ctx, &e),
+                            show(&ctx, &got),
+                            show(&ctx, &a)
                         ),
                     ));
                     return Ok(());
@@ -306,6 +343,22 @@ impl Property for C13 {
 
     fn run(&self, run_seed: u64, _tier: Tier, acc: &mut Acc) -> Option<(Violation, Value)> {
         let mut rng = Rng::stream(run_seed, "workload");
+        // one run in 2,500: a single very large expression (34,000..60,000 leaves, two rewrite
+        // rounds each), requested whole; in half of them its lower half is requested first
+        if rng.chance(1, 2500) {
+            let n = rng.range(34_000, 60_000) as u32;
+            let mut steps = vec![Step::BuildChain(n)];
+            if rng.bool() {
+                steps.push(Step::Req(0));
+            }
+            steps.push(Step::Req(1));
+            let scn = SimpScenario { steps };
+            acc.evaluations += 1;
+            acc.count("pool.one_very_large_expression", 1);
+            acc.sim_steps += 2;
+            acc.distinct.insert(crate::rng::fnv1a(format!("{:?}", scn.steps).as_bytes()));
+            return judge(&scn, acc).map(|v| (v, scn.to_json()));
+        }
         // K clients own batches from one pool; pool members are built in between requests
         let n_build = rng.range(15, 90) as usize;
         // pool flavours: general (all widths), narrow (mostly 1..4 bits), Boolean-only (deep
@@ -387,6 +440,17 @@ impl Property for C13 {
             return vec![];
         };
         let mut out = vec![];
+        for i in 0..scn.steps.len() {
+            if let Step::BuildChain(n) = scn.steps[i] {
+                for m in [n / 2, n - n / 8, n - 1000] {
+                    if m >= 2 && m < n {
+                        let mut s = scn.clone();
+                        s.steps[i] = Step::BuildChain(m);
+                        out.push(s);
+                    }
+                }
+            }
+        }
         // drop requests (any), drop trailing builds
         for i in (0..scn.steps.len()).rev() {
             if let Step::Req(_) = scn.steps[i] {
